@@ -42,5 +42,12 @@ PathScns == {[kind |-> "path", pathkind |-> k, where |-> wh] : k \in PathKinds, 
 MapScns  == {[kind |-> "map", mode |-> m, base |-> (CASE m = "template" -> "tmpl" [] m = "classinst" -> "Tmpl" [] m = "string" -> "foo" [] OTHER -> ""),
               cnt |-> c, shape |-> sh] : m \in {"template", "classinst", "string", "func"}, c \in 0..3,
                                         sh \in {"str", "tuple", "dict", "dict_extra"}}
+(* sequences of definition operations on one workflow, names from a pool of three *)
+NPool   == {"n1", "n2", "n3"}
+NSeqs(n) == UNION {[1..k -> NPool] : k \in 0..n}
+DefOps  == {[op |-> o, names |-> <<n>>] : o \in {"target", "template"}, n \in NPool}
+           \cup {[op |-> "map", names |-> ns] : ns \in NSeqs(3)}
+DefSeqs == UNION {[1..k -> DefOps] : k \in 1..2} \cup RandomSubset(3000, [1..3 -> DefOps])
 ASSUME Part = "misc" => \A x \in WdScns \cup NameScns \cup PathScns \cup MapScns : PrintT(ToJson(x))
+ASSUME Part = "misc" => \A ops \in DefSeqs : PrintT(ToJson([kind |-> "defseq", ops |-> ops]))
 =============================================================================
